@@ -20,6 +20,7 @@ RULE = (
     "at the nodes, PersistenceLandscaper.fit_transform == PersLandscapeApprox.values (flattened on "
     "request), death_vector == deaths sorted non-increasingly. state = (diagram, grid); transition = "
     "one persim call; non-trivial = some endpoint is not a grid node (snapping happens) and >= 2 depths."
+    " Per diagram also: an infinite bar inserted at the first / middle / last row; indexing and vectorize as the first operation on compute=False objects; vectorize of the negated landscape."
 )
 ASSUMPTIONS = [
     "vectorize is compared with the definition only where the exact landscape itself agrees with it (C03 known finding)",
